@@ -33,7 +33,10 @@ pub fn run(sh: &mut shell::Shell, cl: &CommandLine, cmd: &Command,
         // due to limitation of `parses::parser_line`,
         // `alias foo-bar='foo bar'` will become 'foo-bar=foo bar'
         // while `alias foo_bar='foo bar'` keeps foo_bar='foo bar'
-        let value = if cap[2].starts_with('"') || cap[2].starts_with('\'') {
+        // in the first shape the quotes around the value are gone already:
+        // what is left of them belongs to the value (`a-b='"x y" -z'`)
+        let unquoted_by_parser = !tokens[1].0.is_empty();
+        let value = if !unquoted_by_parser && (cap[2].starts_with('"') || cap[2].starts_with('\'')) {
             tools::unquote(&cap[2])
         } else {
             cap[2].to_string()
